@@ -222,6 +222,46 @@ func (fa *FA) entailsPhiSplit(at ssa.Instruction, facts []Fact, a, b *Lin, depth
 		if s.Op == "phi" {
 			phi, _ = s.V.(*ssa.Phi)
 		}
+		// memory merge: len/cap of (or the value of) a load whose version is a merge of its block's predecessors
+		if ld := s; (s.Op == "len" || s.Op == "cap" || s.Op == "ld") && phi == nil {
+			if s.Op != "ld" && len(s.Args) == 1 {
+				ld = s.Args[0]
+			}
+			if ld.Op == "ld" && len(ld.Args) == 1 {
+				var ver int
+				if i := strings.LastIndex(ld.K, "@"); i >= 0 {
+					fmt.Sscanf(ld.K[i+1:], "%d", &ver)
+				}
+				if ver >= 1000 && ver-1000 < len(fa.Fn.Blocks) {
+					mb := fa.Fn.Blocks[ver-1000]
+					if mb == at.Block() || mb.Dominates(at.Block()) {
+						ok := len(mb.Preds) > 0
+						for _, pr := range mb.Preds {
+							val := fa.memValueAtEnd(ld.Args[0], locClass(ld.Aux), pr, ld.T)
+							var el *Lin
+							switch s.Op {
+							case "len":
+								el = fa.linSym(lenOf(val), 0)
+							case "cap":
+								el = fa.linSym(capOf(val), 0)
+							default:
+								el = fa.linSym(val, 0)
+							}
+							ef := fa.edgeFacts(pr, mb)
+							eq := []Fact{le(linAtom(s), el, "memory merge edge"), le(el, linAtom(s), "memory merge edge")}
+							all := fa.closeFacts(append(append(append([]Fact{}, facts...), ef...), eq...), el)
+							if !EntailsLE(all, a, b) && !fa.entailsPhiSplit(at, all, a, b, depth-1) {
+								ok = false
+								break
+							}
+						}
+						if ok {
+							return true
+						}
+					}
+				}
+			}
+		}
 		if phi == nil {
 			// len(phi) etc.: look one level down
 			if (s.Op == "len" || s.Op == "cap") && len(s.Args) == 1 && s.Args[0].Op == "phi" {
